@@ -20,24 +20,29 @@ SumN(runs, k) == IF k = 0 THEN 0 ELSE runs[k].n + SumN(runs, k - 1)
 RunStart(runs, r) == SumN(runs, r - 1)
 TotalLen(runs)    == SumN(runs, Len(runs))
 
-\* the bytes [lo, lo+cnt) of guest cell q, whose source token is t, agree with run r that starts at guest byte g
-CellAgrees(t, q, lo, r, g, cellB, bases, pbase) ==
-  LET inCell == lo - q * cellB      \* first byte inside the cell
+\* geometry record of a trace: geo = [cellB, cb, stride, bases, pbase]
+\*   cellB  bytes per cell;  cb cells per allocation unit;  stride bytes between consecutive unit positions
+\*   bases[f+1] file byte offset of host cell 0 of file f;  pbase offset added to guest offsets in the parent
+HostByte(geo, t) == geo.bases[t.f + 1] + (t.c \div geo.cb) * geo.stride + (t.c % geo.cb) * geo.cellB
+
+\* the bytes from lo on of guest cell q, whose source token is t, agree with run r that starts at guest byte g
+CellAgrees(t, q, lo, r, g, geo) ==
+  LET inCell == lo - q * geo.cellB  \* first byte inside the cell
       inRun  == lo - g              \* same byte inside the run
   IN CASE t.k = "Z" -> r.k = "Z"
-       [] t.k = "D" -> r.k = "D" /\ r.f = t.f /\ r.o + inRun = bases[t.f + 1] + t.c * cellB + inCell
-       [] t.k = "B" -> r.k = "D" /\ r.f = ParentF /\ r.o + inRun = pbase + t.c * cellB + inCell
-       [] t.k = "C" -> r.k = "C" /\ r.f = t.f /\ r.o + inRun = t.c * cellB + inCell
+       [] t.k = "D" -> r.k = "D" /\ r.f = t.f /\ r.o + inRun = HostByte(geo, t) + inCell
+       [] t.k = "B" -> r.k = "D" /\ r.f = ParentF /\ r.o + inRun = geo.pbase + t.c * geo.cellB + inCell
+       [] t.k = "C" -> r.k = "C" /\ r.f = t.f /\ r.o + inRun = t.c * geo.cellB + inCell
        [] OTHER -> FALSE
 
 \* run r covering guest bytes [g, g + r.n) agrees with Src on every overlapped cell
-RunOK(Src(_), r, g, cellB, bases, pbase) ==
-  r.n > 0 /\ \A q \in (g \div cellB)..((g + r.n - 1) \div cellB) :
-      CellAgrees(Src(q), q, TMax(g, q * cellB), r, g, cellB, bases, pbase)
+RunOK(Src(_), r, g, geo) ==
+  r.n > 0 /\ \A q \in (g \div geo.cellB)..((g + r.n - 1) \div geo.cellB) :
+      CellAgrees(Src(q), q, TMax(g, q * geo.cellB), r, g, geo)
 
 \* the decoded result of a read at guest byte o is exactly the guest view
-RunsOK(Src(_), runs, o, cellB, bases, pbase) ==
-  \A r \in 1..Len(runs) : RunOK(Src, runs[r], o + RunStart(runs, r), cellB, bases, pbase)
+RunsOK(Src(_), runs, o, geo) ==
+  \A r \in 1..Len(runs) : RunOK(Src, runs[r], o + RunStart(runs, r), geo)
 
 \* ---- stream semantics at the public API (C08): position arithmetic and EOF clamp, in bytes ----
 ExpectLen(sizeB, pos, n) ==
